@@ -25,7 +25,15 @@ int g_cleanup_calls, g_pushed_parent, g_pushed_new, g_ctx_kind, g_desc_calls, g_
 size_t g_stack_req;
 
 /* the user's start function */
+int g_check_new_at_start;
+#define NEW_READY (NEW.status == MYTH_STATUS_READY && NEW.join_thread == 0 && NEW.env == &ENV && NEW.stack == STK_TOP && \
+                   NEW.cancelled == 0 && NEW.cancel_enabled == 1 && NEW.tls->root == 0 && NEW.tls->pre_alloc_p == NEW.tls->pre_alloc_buf && \
+                   NEW.detached == ((g_with_attr && ATTR.detachstate) ? 1 : 0))
 static void * verif_user_fn(void * a) {
+  /* child-first creation runs the function at once, on the creator's worker: by then the record must be complete (a
+     recycled record holds garbage from its previous life: every field the rest of the library reads must have been set) */
+  __CPROVER_assert(!g_check_new_at_start || (NEW_READY && ENV.this_thread == &NEW),
+                   "create (child first): the record of the new thread is complete (status, joiner, detach state, cancellation, thread-specific data, stack, worker) when its function starts");
   g_fn_calls++; g_fn_arg = a;
   if (nondet_bool()) {
     /* the function blocked or spawned and its continuation was stolen: it returns on ANOTHER worker, while the worker it
@@ -62,9 +70,6 @@ void make_voidcall_contract(myth_context_t ctx, void_func_t func, void * stack, 
   __CPROVER_requires(func == myth_entry_point && "a parent-first thread starts in myth_entry_point")
   __CPROVER_assigns(g_ctx_kind) __CPROVER_ensures(g_ctx_kind == 2);
 
-#define NEW_READY (NEW.status == MYTH_STATUS_READY && NEW.join_thread == 0 && NEW.env == &ENV && NEW.stack == STK_TOP && \
-                   NEW.cancelled == 0 && NEW.cancel_enabled == 1 && NEW.tls->root == 0 && NEW.tls->pre_alloc_p == NEW.tls->pre_alloc_buf && \
-                   NEW.detached == ((g_with_attr && ATTR.detachstate) ? 1 : 0))
 void push_contract(myth_thread_queue_t q, myth_thread_t th)
   __CPROVER_requires(q == &ENV.runnable_q)
   __CPROVER_requires(g_child_first ==> (th == &PARENT && g_pushed_parent == 0 && g_in_callback == 1 && g_ctx_saved == &PARENT.context &&
@@ -88,7 +93,7 @@ void suspend_resume_contract(myth_context_t from, myth_context_t to)
   __CPROVER_assigns(ENV.this_thread) __CPROVER_ensures(1);
 
 static void world(void) {
-  g_envs = ENVS2; g_envs_sz = 1; g_worker_rank = 0; ENV.rank = 0; g_migrated = 0; ENV.this_thread = &PARENT; PARENT.env = &ENV;
+  g_envs = ENVS2; g_envs_sz = 1; g_worker_rank = 0; ENV.rank = 0; g_migrated = 0; g_check_new_at_start = 0; ENV.this_thread = &PARENT; PARENT.env = &ENV;
   g_fn_calls = g_cleanup_calls = g_pushed_parent = g_pushed_new = g_ctx_kind = g_desc_calls = g_stack_calls = 0;
   g_ctx_saved = 0; g_switch_count = 0; g_in_callback = 0; g_jumped = 0;
   g_arg = nondet_bool() ? (void *)&STKBLOCK[0] : 0; g_fn_ret = nondet_bool() ? (void *)&STKBLOCK[1] : 0;
@@ -125,7 +130,7 @@ void h_attr_setters(void) {
 /* ================================================================== creation */
 void h_create(void) {
   world();
-  g_with_attr = nondet_bool();
+  g_with_attr = nondet_bool(); g_check_new_at_start = 1;
   /* an attribute object prepared with the public functions only: attr_init's postcondition + setters */
   ATTR.stackaddr = 0; ATTR.stacksize = nondet_ulong(); ATTR.guardsize = nondet_ulong(); ATTR.detachstate = nondet_bool();
   ATTR.child_first = nondet_bool(); ATTR.custom_data_size = 0; ATTR.custom_data = 0;
